@@ -56,6 +56,12 @@ CASES = [
  ('c14-slots-break-instead-of-continue', 'C14', PC, '            if should_ignore_slots(slot_range, migration_states) {\n                continue;\n            }\n\n            let node_id', '            if should_ignore_slots(slot_range, migration_states) {\n                break;\n            }\n\n            let node_id', 'violation'),
  ('c14-slots-end-is-start', 'C14', PC, 'Resp::Integer(range.end().to_string().into_bytes()),', 'Resp::Integer(range.start().to_string().into_bytes()),', 'violation'),
  ('c15-single-hint-not-remembered', 'C15', 'src/protocol/packet.rs', '                self.curr_hint = Some(h.clone());\n                h', '                if let OptionalMultiHint::Multi(_) = &h {\n                    self.curr_hint = Some(h.clone());\n                }\n                h', 'violation'),
+ ('c20-setex-wrong-index', 'C20', 'src/proxy/compress.rs', 'DataCmdType::Psetex | DataCmdType::Setex => OptionalMulti::Single(3),', 'DataCmdType::Psetex | DataCmdType::Setex => OptionalMulti::Single(2),', 'violation'),
+ ('c20-mset-compresses-keys', 'C20', 'src/proxy/compress.rs', 'let key_indices = (2..l).step_by(2).collect();', 'let key_indices = (1..l).step_by(2).collect();', 'violation'),
+ ('c20-mget-skips-first', 'C20', 'src/proxy/compress.rs', 'if !packet.change_bulk_array_element(i, c) {', 'if i > 0 && !packet.change_bulk_array_element(i, c) {', 'violation'),
+ ('c20-restricted-not-refused', 'C20', 'src/proxy/compress.rs', 'CompressionStrategy::SetGetOnly => return Err(CompressionError::RestrictedCmd),', 'CompressionStrategy::SetGetOnly => return Err(CompressionError::UnsupportedCmdType),', 'violation'),
+ ('c20-executor-forwards-after-io-error', 'C20', 'src/proxy/executor.rs', '            | Err(CompressionError::UnsupportedCmdType)\n            | Err(CompressionError::Disabled) => (),\n            Err(CompressionError::InvalidRequest)', '            | Err(CompressionError::UnsupportedCmdType)\n            | Err(CompressionError::Io(_))\n            | Err(CompressionError::Disabled) => (),\n            Err(CompressionError::InvalidRequest)', 'violation'),
+ ('c20-benign-comment', 'C20', 'src/proxy/compress.rs', '    pub fn try_compressing_cmd_ctx(&self, cmd_ctx: &mut CmdCtx) -> Result<(), CompressionError> {\n        let strategy = self.config.get_config();', '    pub fn try_compressing_cmd_ctx(&self, cmd_ctx: &mut CmdCtx) -> Result<(), CompressionError> {\n        // strategy of the cluster this proxy serves\n        let strategy = self.config.get_config();', 'ok'),
  # ---- C01
  ('c01-compact-adjacent', 'C01', CL, 'if s.end() + 1 >= e.start() {', 'if s.end() >= e.start() {', 'violation'),
  ('c01-compact-truncate', 'C01', CL, 'self.0.truncate(a + 1);', 'self.0.truncate(a);', 'violation'),
